@@ -83,6 +83,7 @@ type runState struct {
 	obsSeq       []uint64   // per graph: first fired foreign receive on the goroutine that called Run
 	dfs          [][]string
 	dfsErr       []error
+	midHi, midLo []int  // largest / smallest limit a task set through SetMaxParallel while its graph was running (0: none)
 	dfsSkipped   []bool // no sequential DepthFirstSort before the run: the concurrent ones come first
 	innerRunning bool   // the inner graph's Run (Scenario.Inner) has been called and has not returned
 	again        bool   // the Run being judged is a repetition on an unchanged graph
@@ -123,6 +124,26 @@ func (r *runState) limit() int {
 		return r.curMaxPar
 	}
 	return 1 << 30
+}
+
+// A task may call SetMaxParallel while its graph runs. Whether the Run in progress keeps the limit it
+// started with or follows the new one is not said anywhere, so from then on the bound on executing
+// functions is the largest limit set so far (limitHi) and work conservation is only demanded below
+// the smallest one (limitLo).
+func (r *runState) limitHi(g int) int {
+	if l := r.limit(); r.midHi[g] > l {
+		return r.midHi[g]
+	} else {
+		return l
+	}
+}
+
+func (r *runState) limitLo(g int) int {
+	if l := r.limit(); r.midLo[g] > 0 && r.midLo[g] < l {
+		return r.midLo[g]
+	} else {
+		return l
+	}
 }
 
 func isSkip(res string) bool { return strings.HasPrefix(res, "skip") }
@@ -340,6 +361,7 @@ func Execute(sc *Scenario, ch simrt.Chooser, keepTrace bool) *Result {
 	r.dfs = make([][]string, ng)
 	r.dfsErr = make([]error, ng)
 	r.dfsSkipped = make([]bool, ng)
+	r.midHi, r.midLo = make([]int, ng), make([]int, ng)
 	r.writes = make([]bytes.Buffer, ng)
 	r.inWrite = make([]bool, ng)
 	for i := 0; i < n; i++ {
@@ -501,8 +523,8 @@ func (r *runState) taskFn(i, alt int, cancel context.CancelFunc) getoptions.Comm
 		if r.executing[g] > r.res.MaxRunning {
 			r.res.MaxRunning = r.executing[g]
 		}
-		if r.executing[g] > r.limit() {
-			what := fmt.Sprintf("SetMaxParallel(%d)", r.curMaxPar)
+		if r.executing[g] > r.limitHi(g) {
+			what := fmt.Sprintf("SetMaxParallel(%d)", r.limitHi(g))
 			if sc.Serial {
 				what = "serial mode"
 			}
@@ -545,21 +567,14 @@ func (r *runState) taskFn(i, alt int, cancel context.CancelFunc) getoptions.Comm
 		if a.SetMaxPar > 0 && sc.Phase2 == nil && !sc.Again && !sc.Serial && sc.MaxPar > 0 {
 			simrt.Lock()
 			r.res.Faults["set_max_parallel_during_run"]++
+			if a.SetMaxPar > r.midHi[g] {
+				r.midHi[g] = a.SetMaxPar
+			}
+			if r.midLo[g] == 0 || a.SetMaxPar < r.midLo[g] {
+				r.midLo[g] = a.SetMaxPar
+			}
 			simrt.Unlock()
 			r.graphs[g].SetMaxParallel(a.SetMaxPar)
-		}
-		if sr := a.SetRetries; sr != nil && sc.Phase2 == nil && !sc.Again {
-			// the dependent cannot have started: it needs this task to return nil first
-			gr := r.graphs[g]
-			simrt.Lock()
-			if r.ms[g].Exists[sr.T] && sr.R < r.ms[g].Retries[sr.T] {
-				r.ms[g].Retries[sr.T] = sr.R
-				r.res.Faults["retries_lowered_by_a_dependency"]++
-				simrt.Unlock()
-				gr.TaskRetries(gr.Task(r.id(sr.T)), sr.R)
-			} else {
-				simrt.Unlock()
-			}
 		}
 		if a.DFS {
 			r.probeDFS(g, fmt.Sprintf("asked by t%02d while it runs", i))
@@ -995,8 +1010,8 @@ func (r *runState) onSettled(gname string) {
 		if r.ng >= 2 {
 			used += simrt.BlockedCount(name2run(g)+"/", "")
 		}
-		if ready && used < r.limit() {
-			r.fail("C16", "O16b", simrt.Note("settled", ""), "g%d: t%02d is ready (all dependencies returned nil), %d of %s slots are in use, no failure or cancellation occurred, its Task is not executing anywhere, and the scheduler stays idle", g, i, used, limStr(r.limit()))
+		if ready && used < r.limitLo(g) {
+			r.fail("C16", "O16b", simrt.Note("settled", ""), "g%d: t%02d is ready (all dependencies returned nil), %d of %s slots are in use, no failure or cancellation occurred, its Task is not executing anywhere, and the scheduler stays idle", g, i, used, limStr(r.limitLo(g)))
 		}
 	}
 }
